@@ -45,7 +45,7 @@ class Sub:
 
     def __init__(self, name, mode, cases, run, describe="", shards=None, total=None,
                  kind="inputs", env=None, setup=None, timeout_s=None, conformance=False,
-                 crash_sig=None, nontrivial_rule=""):
+                 crash_sig=None, nontrivial_rule="", contiguous=False):
         self.name = name
         self.mode = mode
         self.cases = cases          # () -> iterator of JSON-able cases, deterministic order, simplest first
@@ -60,6 +60,7 @@ class Sub:
         self.conformance = conformance  # counts towards traces_validated_against_impl
         self.crash_sig = crash_sig      # case -> signature used when the worker process dies on it
         self.nontrivial_rule = nontrivial_rule
+        self.contiguous = contiguous    # shards are contiguous blocks of the enumeration (needs total)
 
 
 def res(violations=None, nt=None, out=None, st=0, tr=0, rej=False, amb=False, note=None):
@@ -147,7 +148,10 @@ def _run_shard(sub, shard, nshards, skip, cur):
            "st": 0, "tr": 0, "rej": 0, "amb": 0, "t": 0.0}
     t0 = time.time()
     for idx, case in enumerate(sub.cases()):
-        if idx % nshards != shard or idx in skip:
+        if sub.contiguous and sub.total:
+            if (idx * nshards) // sub.total != shard or idx in skip:
+                continue
+        elif idx % nshards != shard or idx in skip:
             continue
         cur.value = idx
         try:
